@@ -190,6 +190,11 @@ def run(r: Run):
     impl_all = r.impl("poisson", lines)
     model_all = r.model("poisson", [l for l, m in zip(lines, mlist) if m <= 100000])
     model_by_mass = dict(zip([m for m in mlist if m <= 100000], model_all))
+    # above 1e5 the count is decided by WHERE lambda^i leaves the range of a double (the early return) or by the factorial
+    # doing so: the range-aware model (Model/PoissonRange.lean: poissonNR) says which
+    big_m = [m for m in mlist if m > 100000]
+    rmodel = dict(zip(big_m, r.model("poisson", ["poissonnr\t" + l.split("\t", 1)[1] for l, m in zip(lines, mlist) if m > 100000], stall=600)))
+    range_n = dict(compared=0, boundary_skipped=0)
     for m, il_all in zip(mlist, impl_all):
         ts = ts_by_mass[m]
         ivals = il_all.split(" ")
@@ -212,6 +217,23 @@ def run(r: Run):
                             f"n_peaks({float(m)}, {float(prev[0])}) = {prev[1]} > n_peaks({float(m)}, {float(t)}) = {n}",
                             observed={"line": one})
             prev = (t, n)
+            if m in rmodel:
+                rv = rmodel[m].split(" ")
+                if len(rv) != len(ts):
+                    raise Broken(f"poissonnr protocol: {rmodel[m][:80]}")
+                rn, ratio_s, range_s = rv[ts.index(t)].split(":")
+                ratio_m = None if ratio_s == "inf" else Fraction(ratio_s)
+                range_m = None if range_s == "inf" else Fraction(range_s)
+                if (ratio_m is not None and ratio_m < 4 * (2 * int(rn) + 8) * Fraction(1, 2 ** 53)) or \
+                        (range_m is not None and range_m < Fraction(1, 10 ** 6)):
+                    range_n["boundary_skipped"] += 1
+                else:
+                    range_n["compared"] += 1
+                    if str(n) != rn:
+                        corr_ok = False
+                        r.violation("npeaks-range-model", {"kind": "differs"},
+                                    f"n_peaks({float(m)}, {float(t)}) = {n}; with the loop variables leaving the range of a double where they "
+                                    f"do, the search returns {rn}", expected=rn, observed={"line": one}, kind="corr_broken")
             if ml is not None:
                 mn, margin_s, nspec = ml.split(":")
                 margin = None if margin_s == "inf" else Fraction(margin_s)
@@ -290,6 +312,7 @@ def run(r: Run):
             corr_ok = False
             r.violation("negative-zero", {"mass": "-0.0"}, f"{zlines[k + 1].replace(chr(9), ' ')} gives {zout[k + 1][:80]}, the same call with +0.0 gives {zout[k][:80]}",
                         expected=zout[k][:300], observed={"line": zlines[k + 1], "impl": zout[k + 1][:300]})
+    r.coverage["range_model_counts"] = range_n
     r.coverage["impl_entry_points"] = dict(profiles=len(ilines), counts=len(nlines) * len(tgrid))
     r.coverage["boundary_skipped"] = skipped
     r.oblige("correspondence: poisson_approximation / poisson_approximate_n_peaks_of agree with the exact model", "corr", corr_ok)
